@@ -85,6 +85,38 @@ theorem C12_withEntry {α : Type} (cell : Nat → α) (d : List (Nat × List Nat
   simp only [withEntry, List.mem_map, Prod.mk.injEq]
   exact ⟨(k, ids), h, rfl, rfl⟩
 
+theorem keyOrder_nodup (xs : List Nat) : (keyOrder xs).Nodup := by
+  unfold keyOrder
+  have : ∀ (acc : List Nat), acc.Nodup →
+      (xs.foldl (fun acc x => if acc.contains x then acc else acc ++ [x]) acc).Nodup := by
+    induction xs with
+    | nil => intro acc h; simpa using h
+    | cons x xs ih =>
+      intro acc h
+      simp only [List.foldl_cons]
+      apply ih
+      by_cases hc : acc.contains x = true
+      · simp only [hc, if_true]; exact h
+      · have hc' : acc.contains x = false := by simpa using hc
+        simp only [hc', Bool.false_eq_true, if_false]
+        rw [List.nodup_append]
+        refine ⟨h, by simp, ?_⟩
+        intro a ha b hb hab
+        simp only [List.mem_singleton] at hb
+        subst hb; subst hab
+        simp [List.contains_iff_mem] at hc'
+        exact hc' ha
+  exact this [] List.nodup_nil
+
+/-- **the views are dictionaries**: every key occurs once -/
+theorem C12_dict_keys_nodup (rows : List Row) (cols : List Nat) (l c : Nat) :
+    ((dictOfCol rows cols l).map (·.1)).Nodup ∧ ((dictOfRow rows c).map (·.1)).Nodup := by
+  constructor
+  · simp only [dictOfCol, List.map_map, Function.comp_def, List.map_id']
+    exact keyOrder_nodup _
+  · simp only [dictOfRow, List.map_map, Function.comp_def, List.map_id']
+    exact keyOrder_nodup _
+
 /-- a word list with a synonym pair and a gap: the statements are about something -/
 example : dictOfCol [⟨1, 1, 1, [1]⟩, ⟨2, 1, 2, [1]⟩, ⟨3, 2, 1, [2]⟩, ⟨4, 1, 1, [3]⟩] [1, 2] 1 = [(1, [1, 4]), (2, [3])] ∧
     dictOfRow [⟨1, 1, 1, [1]⟩, ⟨2, 1, 2, [1]⟩, ⟨3, 2, 1, [2]⟩, ⟨4, 1, 1, [3]⟩] 1 = [(1, [1, 4]), (2, [2])] := by decide
